@@ -42,11 +42,13 @@ type topicModel struct {
 	gwReg    map[uint16]*snref.Pkt // gateway REGISTER by msgID
 	handed   map[uint16]string     // every id the gateway handed out -> first name
 	maybe    map[uint16]bool       // ids possibly allocated but not (yet) confirmed: don't-care
+	rejected map[uint16]string     // ids of gateway REGISTERs the client refused: they denote nothing
+	refused  map[string]int        // topic name -> seq of the client's refusing REGACK
 }
 
 func newTopicModel(pre Predef) *topicModel {
 	return &topicModel{pre: pre, definite: map[uint16]string{}, pendReg: map[uint16]string{}, pendSub: map[uint16]*snref.Pkt{},
-		gwReg: map[uint16]*snref.Pkt{}, handed: map[uint16]string{}, maybe: map[uint16]bool{}}
+		gwReg: map[uint16]*snref.Pkt{}, handed: map[uint16]string{}, maybe: map[uint16]bool{}, rejected: map[uint16]string{}, refused: map[string]int{}}
 }
 
 // TopicModel is the exported view of the reference registration model, for adaptive workload generators.
@@ -55,6 +57,9 @@ type TopicModel struct{ m *topicModel }
 func NewTopicModel(pre Predef) *TopicModel { return &TopicModel{newTopicModel(pre)} }
 func (t *TopicModel) Feed(it Item)         { t.m.feed(it) }
 func (t *TopicModel) ClientID() string     { return t.m.clientID }
+
+// Rejected returns the ids of gateway REGISTERs the client refused.
+func (t *TopicModel) Rejected() map[uint16]string { return t.m.rejected }
 
 // Definite returns the confirmed id -> name registrations.
 func (t *TopicModel) Definite() map[uint16]string { return t.m.definite }
@@ -110,6 +115,14 @@ func (m *topicModel) feed(it Item) {
 				if p.RC == 0 {
 					m.definite[r.TopicID] = r.Name
 					delete(m.maybe, r.TopicID)
+					delete(m.rejected, r.TopicID)
+				} else {
+					// the client refused the registration: the ID denotes nothing (unless confirmed otherwise)
+					delete(m.maybe, r.TopicID)
+					if _, ok := m.definite[r.TopicID]; !ok {
+						m.rejected[r.TopicID] = r.Name
+					}
+					m.refused[r.Name] = it.Seq
 				}
 			}
 		}
@@ -406,6 +419,11 @@ func C02(items []Item, pre Predef) (vs []V, checked int) {
 			}
 		}
 		if len(firsts) == 0 {
+			if seq, ok := m.refused[p.Topic]; ok && seq > in.it.Seq {
+				// the client refused the REGISTER this message needed: nothing can be expected
+				checked--
+				continue
+			}
 			vs = append(vs, V{"C02", "not-delivered|" + cls, fmt.Sprintf("broker %s never reached the client", p), in.it.Seq})
 			continue
 		}
